@@ -1991,3 +1991,377 @@ Proof.
   rewrite (drop_empty_id nms Hh), drop_empty_id; [apply rev_involutive|].
   now rewrite hd_rev_last.
 Qed.
+
+(* ======================================================================================== *)
+(* 19. attributes by node name (add_dict_to_tree_by_name and the frame variants)              *)
+
+Lemma by_name_apply_unfold d g n a ks :
+  by_name_apply d (T g n a ks)
+  = T g n (match dict_get d n with
+           | Some na => set_attrs a (filter_attributes na [k_name] false)
+           | None => a
+           end) (map (by_name_apply d) ks).
+Proof. reflexivity. Qed.
+
+Lemma subtree_by_name d : forall q t,
+  subtree_at (by_name_apply d t) q = option_map (by_name_apply d) (subtree_at t q).
+Proof.
+  induction q as [|i q IH]; intros [g n a ks]; [reflexivity|].
+  rewrite by_name_apply_unfold. cbn [subtree_at tkids]. rewrite nth_error_map.
+  destruct (nth_error ks i) as [k|]; [apply IH|reflexivity].
+Qed.
+
+Lemma paths_from_by_name d : forall t pfx, paths_from pfx (by_name_apply d t) = paths_from pfx t.
+Proof.
+  induction t as [g n a ks IH] using tree_ind'. intros pfx.
+  rewrite by_name_apply_unfold, !paths_from_unfold. f_equal. rewrite flat_map_map.
+  apply flat_map_ext_in. intros k Hk. rewrite Forall_forall in IH. now apply IH.
+Qed.
+
+Definition tags (t : tree) : list (option nat) := map ttag (pre t).
+
+Lemma tags_unfold g n a ks : tags (T g n a ks) = g :: flat_map tags ks.
+Proof.
+  unfold tags. rewrite pre_unfold. cbn [map ttag]. f_equal.
+  induction ks as [|k ks IH]; [reflexivity|]. cbn [flat_map]. now rewrite map_app, IH.
+Qed.
+
+Lemma tags_by_name d : forall t, tags (by_name_apply d t) = tags t.
+Proof.
+  induction t as [g n a ks IH] using tree_ind'.
+  rewrite by_name_apply_unfold, !tags_unfold. f_equal. rewrite flat_map_map.
+  apply flat_map_ext_in. intros k Hk. rewrite Forall_forall in IH. now apply IH.
+Qed.
+
+(* shape, names and node objects are untouched; a node gets the attributes of the entry with its
+   name (minus the key "name"), every other node keeps what it had *)
+Theorem by_name_exact d t :
+  paths (by_name_apply d t) = paths t
+  /\ map ttag (pre (by_name_apply d t)) = map ttag (pre t)
+  /\ (forall q, subtree_at t q = None -> subtree_at (by_name_apply d t) q = None)
+  /\ (forall q s, subtree_at t q = Some s ->
+        exists s', subtree_at (by_name_apply d t) q = Some s' /\
+                   ttag s' = ttag s /\ tname s' = tname s /\
+                   map tname (tkids s') = map tname (tkids s) /\
+                   tattrs s' = match dict_get d (tname s) with
+                               | Some na => set_attrs (tattrs s) (filter_attributes na [k_name] false)
+                               | None => tattrs s
+                               end).
+Proof.
+  split; [apply paths_from_by_name|]. split; [apply tags_by_name|]. split.
+  - intros q H. now rewrite subtree_by_name, H.
+  - intros q s H. exists (by_name_apply d s). rewrite subtree_by_name, H. split; [reflexivity|].
+    destruct s as [g n a ks]. rewrite by_name_apply_unfold. cbn [ttag tname tattrs tkids].
+    repeat split. rewrite map_map. apply map_ext. intros [g' n' a' ks']. reflexivity.
+Qed.
+
+Theorem add_dict_by_name_exact t d t' :
+  add_dict_to_tree_by_name t d = Ret t' -> d <> [] /\ t' = by_name_apply d t.
+Proof.
+  unfold add_dict_to_tree_by_name. destruct d; [discriminate|]. intros H. inversion H. split; [discriminate|reflexivity].
+Qed.
+
+(* the frame variants: refused when a name carries two different attribute rows; otherwise the
+   first row of every name, nulls dropped, applied as above *)
+Definition frame_name_attrs (rows : list row) : list row :=
+  map (fun r => (fst r, filter (fun kv => negb (isnull (snd kv))) (snd r))) (first_rows [] rows).
+
+Theorem add_frame_by_name_exact t rows t' :
+  add_frame_to_tree_by_name t rows = Ret t' ->
+  rows <> [] /\ has_duplicate_attribute rows = false /\ t' = by_name_apply (frame_name_attrs rows) t.
+Proof.
+  unfold add_frame_to_tree_by_name. destruct rows as [|r rows]; [discriminate|].
+  destruct (has_duplicate_attribute (r :: rows)); [discriminate|].
+  intros H. apply add_dict_by_name_exact in H as [_ ->]. repeat split. discriminate.
+Qed.
+
+Lemma dict_get_map_first (f : attrs -> attrs) nm : forall rows seen,
+  ~ In nm seen ->
+  dict_get (map (fun r => (fst r, f (snd r))) (first_rows seen rows)) nm
+  = option_map f (dict_get rows nm).
+Proof.
+  induction rows as [|[k a] rows IH]; intros seen Hs; [reflexivity|]. cbn [first_rows dict_get].
+  destruct (existsb (str_eqb k) seen) eqn:E.
+  - destruct (str_eqb k nm) eqn:Ek.
+    + apply str_eqb_eq in Ek. subst. apply existsb_exists in E as (x & Hx & Ex).
+      apply str_eqb_eq in Ex. subst. contradiction.
+    + now apply IH.
+  - cbn [map dict_get fst snd]. destruct (str_eqb k nm) eqn:Ek; [reflexivity|].
+    apply IH. intros [->|H]; [rewrite str_eqb_refl in Ek; discriminate|contradiction].
+Qed.
+
+(* so a node named nm gets the non-null attributes of the first row for nm *)
+Corollary frame_name_attrs_get rows nm :
+  dict_get (frame_name_attrs rows) nm
+  = option_map (filter (fun kv => negb (isnull (snd kv)))) (dict_get rows nm).
+Proof. unfold frame_name_attrs. apply dict_get_map_first. intros []. Qed.
+
+(* ======================================================================================== *)
+(* 20. pre-order lists versus positions                                                       *)
+
+Lemma Forall2_flat_map {A B C} (R : B -> C -> Prop) (F : A -> list B) (G : A -> list C) l :
+  (forall k, In k l -> Forall2 R (F k) (G k)) -> Forall2 R (flat_map F l) (flat_map G l).
+Proof.
+  induction l as [|x l IH]; intros H; [constructor|]. cbn [flat_map].
+  apply Forall2_app; [apply H; now left|]. apply IH. intros k Hk. apply H. now right.
+Qed.
+
+Lemma Forall2_weaken {A B} (R R' : A -> B -> Prop) l m :
+  (forall x y, R x y -> R' x y) -> Forall2 R l m -> Forall2 R' l m.
+Proof. intros H F. induction F; constructor; auto. Qed.
+
+(* the i-th path of `paths` is the name path of the i-th node of `pre` *)
+Lemma lockstep : forall t pfx,
+  Forall2 (fun p s => exists q, subtree_at t q = Some s /\ p = pfx ++ names_along t q)
+          (paths_from pfx t) (pre t).
+Proof.
+  induction t as [g n a ks IH] using tree_ind'. intros pfx.
+  rewrite paths_from_unfold, pre_unfold. constructor.
+  - exists []. split; reflexivity.
+  - apply Forall2_flat_map. intros k Hk. rewrite Forall_forall in IH.
+    destruct (In_nth_error _ _ Hk) as [i Hi].
+    eapply Forall2_weaken; [|apply (IH k Hk (pfx ++ [n]))].
+    intros p s (q & Hq & ->). exists (i :: q). cbn [subtree_at names_along tkids tname].
+    rewrite Hi. split; [exact Hq|]. now rewrite <- app_assoc.
+Qed.
+
+Lemma valid_in_paths : forall q t s pfx,
+  subtree_at t q = Some s -> In (pfx ++ names_along t q) (paths_from pfx t).
+Proof.
+  induction q as [|i q IH]; intros t s pfx H.
+  - cbn. apply paths_from_head.
+  - destruct t as [g n a ks]. cbn [subtree_at names_along tkids tname] in *.
+    destruct (nth_error ks i) as [k|] eqn:Hk; [|discriminate].
+    rewrite paths_from_unfold. right. apply in_flat_map. exists k.
+    split; [eapply nth_error_In; eauto|].
+    replace (pfx ++ n :: names_along k q) with ((pfx ++ [n]) ++ names_along k q)
+      by (now rewrite <- app_assoc).
+    eapply IH; eauto.
+Qed.
+
+Lemma in_paths_valid t pfx p :
+  In p (paths_from pfx t) -> exists q s, subtree_at t q = Some s /\ p = pfx ++ names_along t q.
+Proof.
+  intros H. pose proof (lockstep t pfx) as L.
+  revert H. induction L as [|x y l l' Hxy _ IH]; intros H; [contradiction|].
+  destruct H as [<-|H]; [|now apply IH]. destruct Hxy as (q & Hq & ->). eauto.
+Qed.
+
+Lemma Forall2_forallb2 {A B} (R : A -> B -> Prop) (f : A -> B -> bool) l m :
+  Forall2 R l m -> (forall x y, R x y -> f x y = true) -> forallb2 f l m = true.
+Proof.
+  intros H Hf. induction H as [|x y l m Hxy _ IH]; [reflexivity|]. cbn. now rewrite (Hf _ _ Hxy), IH.
+Qed.
+
+Lemma Forall2_map_eq {A B C} (R : A -> B -> Prop) (f : A -> C) (g : B -> C) l m :
+  Forall2 R l m -> (forall x y, R x y -> f x = g y) -> map f l = map g m.
+Proof.
+  intros H Hf. induction H as [|x y l m Hxy _ IH]; [reflexivity|]. cbn. now rewrite (Hf _ _ Hxy), IH.
+Qed.
+
+(* a per-node statement, indexed by position, lifts to the pre-order lists *)
+Lemma positions_forallb2 (P : path -> tree -> bool) t :
+  (forall q s, subtree_at t q = Some s -> P (names_along t q) s = true) ->
+  forallb2 P (paths t) (pre t) = true.
+Proof.
+  intros H. eapply Forall2_forallb2; [apply (lockstep t [])|].
+  intros p s (q & Hq & ->). now apply H.
+Qed.
+
+Lemma positions_map_eq {C} (f : tree -> C) (g : path -> C) t :
+  (forall q s, subtree_at t q = Some s -> f s = g (names_along t q)) ->
+  map f (pre t) = map g (paths t).
+Proof.
+  intros H. symmetry. eapply Forall2_map_eq; [apply (lockstep t [])|].
+  intros p s (q & Hq & ->). symmetry. now apply H.
+Qed.
+
+Lemma assoc_path_In {A} (p : path) (v : A) l :
+  NoDup (map fst l) -> In (p, v) l -> assoc_path p l = Some v.
+Proof.
+  induction l as [|[q w] l IH]; intros Hn Hin; [contradiction|]. cbn [assoc_path].
+  cbn in Hn. inversion Hn as [|? ? Hq Hl]; subst.
+  destruct Hin as [E|Hin].
+  - inversion E; subst. now rewrite path_eqb_refl.
+  - destruct (path_eqb q p) eqn:E; [|now apply IH].
+    apply path_eqb_eq in E. subst. exfalso. apply Hq.
+    change p with (fst (p, v)). now apply in_map.
+Qed.
+
+Lemma assoc_path_None {A} (p : path) (l : list (path * A)) :
+  ~ In p (map fst l) -> assoc_path p l = None.
+Proof.
+  induction l as [|[q w] l IH]; intros H; [reflexivity|]. cbn [assoc_path].
+  destruct (path_eqb q p) eqn:E.
+  - apply path_eqb_eq in E. subst. exfalso. apply H. now left.
+  - apply IH. intros Hin. apply H. now right.
+Qed.
+
+Lemma combine_fst_eq {A B} (l : list A) (m : list B) : length l = length m -> map fst (combine l m) = l.
+Proof.
+  revert m; induction l as [|x l IH]; intros [|y m] H; cbn in *; try discriminate; [reflexivity|].
+  f_equal. apply IH. lia.
+Qed.
+
+Lemma Forall2_In_combine {A B} (R : A -> B -> Prop) l m x y :
+  Forall2 R l m -> In (x, y) (combine l m) -> R x y.
+Proof.
+  intros H. induction H as [|a b l m Hab _ IH]; intros Hin; [contradiction|].
+  destruct Hin as [E|Hin]; [inversion E; subst; exact Hab|now apply IH].
+Qed.
+
+Lemma Forall2_len {A B} (R : A -> B -> Prop) l m : Forall2 R l m -> length l = length m.
+Proof. intros H. induction H; cbn; congruence. Qed.
+
+Lemma NoDup_app_intro {A} (l l' : list A) :
+  NoDup l -> NoDup l' -> (forall x, In x l -> In x l' -> False) -> NoDup (l ++ l').
+Proof.
+  induction l as [|x l IH]; intros H1 H2 Hd; [exact H2|]. cbn. inversion H1 as [|? ? Hx Hl]; subst.
+  constructor.
+  - intros Hin. apply in_app_or in Hin as [Hin|Hin]; [contradiction|]. apply (Hd x); [now left|exact Hin].
+  - apply IH; auto. intros y Hy Hy'. apply (Hd y); [now right|exact Hy'].
+Qed.
+
+Lemma paths_pre_length t : length (paths t) = length (pre t).
+Proof. eapply Forall2_len. apply (lockstep t []). Qed.
+
+
+(* ======================================================================================== *)
+(* 21. name paths identify positions; they are stable under insertion                         *)
+
+Lemma names_along_len2 t i q s : subtree_at t (i :: q) = Some s -> exists x y l, names_along t (i :: q) = x :: y :: l.
+Proof.
+  cbn. destruct (nth_error (tkids t) i) as [k|]; [|discriminate]. intros _.
+  destruct (names_along_hd k q) as [l ->]. eauto.
+Qed.
+
+Lemma names_along_inj : forall q1 t q2 s1 s2,
+  sib_ok t -> subtree_at t q1 = Some s1 -> subtree_at t q2 = Some s2 ->
+  names_along t q1 = names_along t q2 -> q1 = q2.
+Proof.
+  induction q1 as [|i q1 IH]; intros t q2 s1 s2 Hw H1 H2 E.
+  - destruct q2 as [|j q2]; [reflexivity|]. destruct (names_along_len2 _ _ _ _ H2) as (x & y & l & E2).
+    rewrite E2 in E. cbn in E. discriminate.
+  - destruct q2 as [|j q2].
+    + destruct (names_along_len2 _ _ _ _ H1) as (x & y & l & E1). rewrite E1 in E. cbn in E. discriminate.
+    + cbn [subtree_at names_along] in *.
+      destruct (nth_error (tkids t) i) as [ki|] eqn:Hi; [|discriminate].
+      destruct (nth_error (tkids t) j) as [kj|] eqn:Hj; [|discriminate].
+      inversion E as [E1]. apply sib_ok_kids in Hw as [Hnd Hwk].
+      assert (i = j).
+      { destruct (names_along_hd ki q1) as [l1 E2]. destruct (names_along_hd kj q2) as [l2 E3].
+        rewrite E2, E3 in E1. inversion E1 as [Hname].
+        eapply (proj1 (NoDup_nth_error (map tname (tkids t)))); [exact Hnd| |].
+        - rewrite map_length. apply nth_error_Some. congruence.
+        - rewrite !nth_error_map, Hi, Hj. cbn. now f_equal. }
+      subst j. rewrite Hj in Hi. inversion Hi; subst kj. f_equal.
+      rewrite Forall_forall in Hwk. eapply (IH ki); eauto. apply Hwk. eapply nth_error_In; eauto.
+Qed.
+
+Lemma ins_names_along rest na : forall t q s,
+  subtree_at t q = Some s -> names_along (fst (ins rest na t)) q = names_along t q.
+Proof.
+  induction rest as [|nm rest IH]; intros t q s H; [reflexivity|]. cbn [ins].
+  destruct (find_idx nm 0 (tkids t)) as [|i [|j r]] eqn:F; cbn [fst]; try reflexivity.
+  - destruct (is_nil nm); cbn [fst]; [reflexivity|].
+    destruct t as [g n a ks]. cbn [add_kid]. destruct q as [|j q]; [reflexivity|].
+    cbn [subtree_at names_along tkids tname] in *.
+    destruct (nth_error ks j) as [kj|] eqn:Hj; [|discriminate].
+    now rewrite nth_error_app1, Hj by (apply nth_error_Some; congruence).
+  - destruct (nth_error (tkids t) i) as [k|] eqn:Hk; cbn [fst]; [|reflexivity].
+    destruct t as [g n a ks]. cbn [tkids] in *. rewrite upd_at_cons. cbn [upd_at].
+    destruct q as [|j q]; [reflexivity|]. cbn [subtree_at names_along tkids tname] in *.
+    destruct (Nat.eq_dec i j) as [<-|Hne].
+    + rewrite nth_error_upd_nth, Hk in *. cbn [option_map]. f_equal. now apply (IH k q s).
+    + now rewrite nth_error_upd_nth_other.
+Qed.
+
+(* what one accepted add_path_to_tree call (duplicates allowed) does, position by position *)
+Lemma add_path_positions t tsep path sep na t' p :
+  add_path_to_tree t tsep path sep true na = (t', Ret p) ->
+  (forall q s, subtree_at t q = Some s ->
+     exists s', subtree_at t' q = Some s' /\ names_along t' q = names_along t q /\ ttag s' = ttag s)
+  /\ names_along t' p = branch_of path sep
+  /\ (exists sp, subtree_at t' p = Some sp).
+Proof.
+  intros H. pose proof (add_path_returns _ _ _ _ _ _ _ H) as [Hex Hn].
+  destruct (add_path_reuses _ _ _ _ _ _ _ H) as (Hr & _ & _).
+  split; [|split; assumption].
+  intros q s Hq. destruct (Hr q s Hq) as (s' & Hs' & Ht & _). exists s'. split; [exact Hs'|]. split; [|exact Ht].
+  destruct (add_path_inv _ _ _ _ _ _ _ H) as (rest & _ & _ & ->).
+  rewrite names_along_set_attrs. eapply ins_names_along; eauto.
+Qed.
+
+(* the same for a whole loop of calls *)
+Lemma add_rows_positions tsep sep : forall rows t acc t' ps,
+  add_rows t tsep sep true rows acc = (t', Ret ps) ->
+  forall q s, subtree_at t q = Some s ->
+    exists s', subtree_at t' q = Some s' /\ names_along t' q = names_along t q /\ ttag s' = ttag s.
+Proof.
+  induction rows as [|[path na] rows IH]; intros t acc t' ps H q s Hq; cbn [add_rows] in H.
+  - inversion H; subst. eauto.
+  - destruct (add_path_to_tree t tsep path sep true na) as [t1 [p|e]] eqn:Ha; [|discriminate].
+    destruct (add_path_positions _ _ _ _ _ _ _ Ha) as (Hk & _ & _).
+    destruct (Hk q s Hq) as (s1 & Hs1 & Hn1 & Ht1).
+    destruct (IH _ _ _ _ H q s1 Hs1) as (s' & Hs' & Hn' & Ht'). exists s'. split; [exact Hs'|].
+    split; congruence.
+Qed.
+
+Lemma add_rows_sib_ok tsep sep : forall rows t acc t' ps,
+  sib_ok t -> add_rows t tsep sep true rows acc = (t', Ret ps) -> sib_ok t'.
+Proof.
+  induction rows as [|[path na] rows IH]; intros t acc t' ps Hw H; cbn [add_rows] in H.
+  - inversion H; subst. exact Hw.
+  - destruct (add_path_to_tree t tsep path sep true na) as [t1 [p|e]] eqn:Ha; [|discriminate].
+    eapply IH; [|exact H]. destruct (add_path_reuses _ _ _ _ _ _ _ Ha) as (_ & _ & Hs). now apply Hs.
+Qed.
+
+Lemma combine_map_r {A B C} (f : B -> C) (l : list A) (m : list B) x y :
+  In (x, y) (combine l m) -> In (x, f y) (combine l (map f m)).
+Proof.
+  revert m; induction l as [|a l IH]; intros [|b m] H; cbn in *; try contradiction.
+  destruct H as [E|H]; [left; inversion E; reflexivity|right; now apply IH].
+Qed.
+
+Lemma Forall2_In_l {A B} (R : A -> B -> Prop) l m x :
+  Forall2 R l m -> In x l -> exists y, In (x, y) (combine l m) /\ R x y.
+Proof.
+  intros H. induction H as [|a b l m Hab _ IH]; intros Hin; [contradiction|].
+  destruct Hin as [<-|Hin]; [exists b; split; [now left|exact Hab]|].
+  destruct (IH Hin) as (y & Hy & Hr). exists y. split; [now right|exact Hr].
+Qed.
+
+(* looking up the name path of a node in (paths t, f of the nodes) finds that node's value *)
+Lemma assoc_path_node {C} (f : tree -> C) t q s :
+  sib_ok t -> NoDup (paths t) -> subtree_at t q = Some s ->
+  assoc_path (names_along t q) (combine (paths t) (map f (pre t))) = Some (f s).
+Proof.
+  intros Hw Hn Hq. apply assoc_path_In.
+  - rewrite combine_fst_eq; [exact Hn|]. rewrite map_length. apply paths_pre_length.
+  - pose proof (valid_in_paths q t s [] Hq) as Hin. cbn [app] in Hin.
+    destruct (Forall2_In_l _ _ _ _ (lockstep t []) Hin) as (s0 & Hc & q0 & Hq0 & E). cbn [app] in E.
+    assert (q = q0) by (eapply names_along_inj; eauto). subst q0.
+    rewrite Hq in Hq0. inversion Hq0; subst s0. now apply combine_map_r.
+Qed.
+
+Lemma sib_ok_NoDup_paths : forall t pfx, sib_ok t -> NoDup (paths_from pfx t).
+Proof.
+  intros t pfx Hw.
+  (* distinct positions have distinct name paths; the list is the image of the position list.  Proved
+     directly by induction. *)
+  revert pfx. induction t as [g n a ks IH] using tree_ind'. intros pfx.
+  apply sib_ok_kids in Hw as [Hnd Hwk]. cbn [tkids] in *. rewrite paths_from_unfold.
+  constructor.
+  - intros Hin. apply in_flat_map in Hin as (k & _ & Hq). apply paths_from_shape in Hq as [l E].
+    apply (f_equal (@length str)) in E. rewrite !app_length in E. cbn in E. lia.
+  - induction ks as [|k ks IHk]; [constructor|]. cbn [flat_map].
+    inversion IH as [|? ? Hk Hks]; subst. inversion Hwk as [|? ? Hwk1 Hwk2]; subst.
+    cbn in Hnd. inversion Hnd as [|? ? Hnk Hnd']; subst.
+    apply NoDup_app_intro.
+    + now apply Hk.
+    + now apply IHk.
+    + intros x Hx Hy. apply in_flat_map in Hy as (k' & Hk' & Hy).
+      apply paths_from_shape in Hx as [l1 E1]. apply paths_from_shape in Hy as [l2 E2].
+      rewrite E1 in E2. rewrite <- !app_assoc in E2. apply app_inv_head in E2. cbn in E2.
+      inversion E2 as [[En _]]. apply Hnk. rewrite En. now apply in_map.
+Qed.
